@@ -70,6 +70,16 @@ ASAN_ENV = {"ASAN_OPTIONS": "detect_leaks=0:halt_on_error=0:abort_on_error=0:han
             "UBSAN_OPTIONS": "print_stacktrace=0:halt_on_error=0"}
 
 
+def _die_with_parent():
+    """children (harness, TLC) are killed when the check process itself is killed - an orphaned harness with a large
+    scenario file once kept 50 GB"""
+    try:
+        import ctypes
+        ctypes.CDLL("libc.so.6").prctl(1, 9)      # PR_SET_PDEATHSIG, SIGKILL
+    except Exception:
+        pass
+
+
 def run_vdrv(exe, conf, scenarios, work, tag="run", jobs=16, timeout=8, env=None):
     """scenarios: list of (id, [op-line,...]).  Runs them in `jobs` harness processes.
     Returns list of executions: dict(id=..., events=[...], end={...}) in scenario order."""
@@ -91,7 +101,7 @@ def run_vdrv(exe, conf, scenarios, work, tag="run", jobs=16, timeout=8, env=None
                 for o in ops:
                     fh.write(o + "\n")
         p = subprocess.Popen([exe, conf, sp, op, str(timeout)], env=e, stdout=subprocess.DEVNULL,
-                             stderr=subprocess.PIPE, cwd=work.dir)
+                             stderr=subprocess.PIPE, cwd=work.dir, preexec_fn=_die_with_parent)
         procs.append((p, op))
     res = {}
     for p, op in procs:
@@ -204,7 +214,7 @@ def tlc(spec_dir, module, cfg, work, tag, workers=16, extra=None, env=None, time
     cmd.append(module)
     try:
         p = subprocess.run(cmd, cwd=d, env=e, stdout=subprocess.PIPE, stderr=subprocess.STDOUT, text=True,
-                           timeout=timeout)
+                           timeout=timeout, preexec_fn=_die_with_parent)
     except subprocess.TimeoutExpired as ex:
         return 124, (ex.stdout or "") if isinstance(ex.stdout, str) else (ex.stdout or b"").decode(errors="replace")
     return p.returncode, p.stdout
